@@ -27,7 +27,9 @@ RULE = (
     " 40% of the scenarios are rewritten a second time by a fresh"
     " context whose patch re-uses the first rewrite's temporary label"
     " names; scope registrations with BlockPosition.ANYWHERE; blocks"
-    " shared by two functions."
+    " shared by two functions. One configuration rewrites every"
+    " scenario of its batch a second time in the same process (state"
+    " kept in process-wide objects must not show)."
 )
 ASSUMPTIONS = [
     "a nondeterminism that needs one specific address collision may be missed",
@@ -44,7 +46,8 @@ CONFIGS = [
     {"hashseed": "7", "uuid_seed": 3, "alloc_seed": 3, "permute": 11},
     {"hashseed": "123", "uuid_seed": 4, "alloc_seed": 4, "permute": 12},
     {"hashseed": "0", "uuid_seed": 5, "alloc_seed": 5, "permute": 13},
-    {"hashseed": "0", "uuid_seed": 1, "alloc_seed": 6, "permute": 0},
+    {"hashseed": "0", "uuid_seed": 1, "alloc_seed": 6, "permute": 0,
+     "repeat": True},
 ]
 MORE = [
     {"hashseed": "42", "uuid_seed": 9, "alloc_seed": 7, "permute": 14},
@@ -85,7 +88,7 @@ def gen_case(rng, tier, index):
 def run_case(batch):
     viol = []
     ctr = {"scenarios_compared": 0, "child_runs": 0, "configs": 0,
-           "both_raise": 0}
+           "both_raise": 0, "in_process_repeats": 0}
     configs = CONFIGS + (MORE if batch.get("tier") == "thorough" else [])
     os.makedirs(common.WORK, exist_ok=True)
     with tempfile.TemporaryDirectory(dir=common.WORK) as td:
@@ -104,7 +107,8 @@ def run_case(batch):
                 cwd=common.VERIF, env=env, stdout=subprocess.DEVNULL,
                 stderr=subprocess.PIPE), op))
         results = []
-        for p, op in procs:
+        rcfgs = []
+        for k, (p, op) in enumerate(procs):
             try:
                 _, err = p.communicate(timeout=600)
             except subprocess.TimeoutExpired:
@@ -115,8 +119,21 @@ def run_case(batch):
                 return {"sig": None, "violations": [],
                         "inconclusive": "child-died:" + err.decode(
                             errors="replace")[-300:]}
-            results.append(json.load(open(op)))
+            res = json.load(open(op))
+            if len(res) == 2 * len(batch["cases"]):
+                # a configuration that ran every scenario twice in one
+                # process: the second pass is one more configuration
+                n = len(batch["cases"])
+                results.append(res[:n])
+                results.append(res[n:])
+                rcfgs.append(configs[k])
+                rcfgs.append(dict(configs[k], second_pass=True))
+                ctr["in_process_repeats"] += n
+            else:
+                results.append(res)
+                rcfgs.append(configs[k])
             ctr["child_runs"] += 1
+    configs = rcfgs       # one entry per result row
     ctr["configs"] = len(configs)
     sigs = []
     for idx, case in enumerate(batch["cases"]):
@@ -139,8 +156,10 @@ def run_case(batch):
         if len(fulls) > 1:
             which = [k for k, r in enumerate(rs) if r["full"] != rs[0]["full"]]
             perm_only = all(configs[k]["permute"] for k in which)
+            second = all(configs[k].get("second_pass") for k in which)
             viol.append({
                 "key": "determinism:dump-differs:" + (
+                    "second-pass-in-one-process" if second else
                     "registration-order" if perm_only else "same-order"),
                 "msg": f"scenario {idx}: configs {which} differ from config "
                        f"0; case={json.dumps(case)[:1500]}"})
